@@ -159,12 +159,17 @@ func ip(s string, v6 bool) net.IP {
 var loadOnce sync.Once
 
 func New(active, inactive time.Duration, ch chan *entities.Message, workers int) *intermediate.AggregationProcess {
+	return NewWith(active, inactive, ch, workers, Elements())
+}
+
+// NewWith is New with the AggregateElements setting given (nil: the process only correlates).
+func NewWith(active, inactive time.Duration, ch chan *entities.Message, workers int, els *intermediate.AggregationElements) *intermediate.AggregationProcess {
 	loadOnce.Do(registry.LoadRegistry) // LoadRegistry is start-up code, not safe to run concurrently
 	if ch == nil {
 		ch = make(chan *entities.Message)
 	}
 	ap, err := intermediate.InitAggregationProcess(intermediate.AggregationInput{
-		MessageChan: ch, WorkerNum: workers, CorrelateFields: CorrelateFields, AggregateElements: Elements(),
+		MessageChan: ch, WorkerNum: workers, CorrelateFields: CorrelateFields, AggregateElements: els,
 		ActiveExpiryTimeout: active, InactiveExpiryTimeout: inactive,
 	})
 	if err != nil {
